@@ -20,7 +20,7 @@ txt.append("### 10.5 Independently seeded changes and behaviour-preserving refac
 txt.append("Both sets were written by sub-agents that were given only the text of one property and a scratch git worktree of `/repo`\n(nothing from `/verif`); I confirmed each myself before keeping it (`tools/verify_seeded.sh`: applies, builds, 126/126 tests\npass with it, its demonstration fails with it and passes without; `tools/verify_benign.sh`: applies, builds, 126/126). The\ntables are produced by `tools/seed_sweep.py` / `tools/benign_sweep.py`: every patch is applied to a scratch worktree and *every*\nregistered check is run against it (quick tier; the thorough tier too for the property the patch was written for).\n")
 txt.append("**Seeded defects: %d.** Reported with a rule violation (exit 1) by at least one check: %d (by a rule of the property they were written against: %d; only in the thorough tier, i.e. in a non-default compile-time configuration: %d). Answered only with *analysis broken* (exit 2, no verdict): %d%s. Not detected: %d%s.\n" % (
     n, len(by_rule), len(own), len(thorough), len(only_broken), (" (" + ", ".join(m["id"] for m in only_broken) + ")") if only_broken else "", len(missed), (" (" + ", ".join(m["id"] for m in missed) + ")") if missed else ""))
-txt.append("This is **not a blind detection rate**: the rounds of seeds were used to find gaps, and a rule written after a miss names the seed in 10.4. The honest blind figure is the one of the last round, taken before any rule was touched. Round 5 produced 54 seeds (three for each of 18 properties; C09 and C17 had their extra round earlier). Before any change 28 of the 54 were reported with a rule violation: 5/12 for C05, C13, C14, C16; 11/18 for C01, C02, C03, C06, C08, C10; 12/18 for C04, C07, C11, C12, C15, C20; 0/6 for C18, C19. The other 26 were silent or answered only with *no verdict*. Each miss was turned into a rule that states a necessary condition of the property in terms of the code (C01.split-worklist, C02.force-coverage / angle-range, C05.region-test, C08 coupling rules, C11.worklist-fresh, C12 'every face slot' / flip decision / unfiltered extremum, C13.normals-after-orientation / call-once-cache / ball-scale, C14.difference-form, C16.record-per-line / every cell compacted, C18.type-binding / weakened validation / loop bound, C19.rows-reach-file, C20.closed-box / query-fresh, ...), after which all 54 are reported. In round 4 two of twelve were missed at first (C09-8, C19-6). Round 6 confirmed this: 36 more seeds (three for each of C01, C02, C05, C08, C11, C12, C13, C14, C16, C18, C19, C20), of which 18 were reported before any change (8/18 in the first half, 10/18 in the second). The 18 misses again became rules: C01.rebase 'the renumbering runs on every compaction' (a skip guard is decided by linear integer arithmetic on the sizes), C02 range guards of the bending force, C05.distance-form, C08 id kinds of the pairs stored in coupling records / fresh-id counter not a copy / tail truncation, C11 flag-correlated counting, C12.area-sum over the whole list / C12.flood-fill-complete / C12.eigen-similarity (the Givens steps preserve the characteristic polynomial, a polynomial identity), C13.retry-catches / the Poisson distance test has no exemption, C14.mean-position, C16.local-ids-by-lookup / path-as-given-first, C18.wiring-order / dead sign checks / INF-as-branch, C19.writer-reentrant / header-row on emission traces, C20 const queries and the synthetic unit that instantiates every grid member; after them all 36 are reported. The rules decide enumerated structural clauses, not the behaviour (10.4 *Not decided*), so a further round would again find gaps - at a rate of roughly one seed in two.\n")
+txt.append("This is **not a blind detection rate**: the rounds of seeds were used to find gaps, and a rule written after a miss names the seed in 10.4. The honest blind figure is the one of the last round, taken before any rule was touched. Round 5 produced 54 seeds (three for each of 18 properties; C09 and C17 had their extra round earlier). Before any change 28 of the 54 were reported with a rule violation: 5/12 for C05, C13, C14, C16; 11/18 for C01, C02, C03, C06, C08, C10; 12/18 for C04, C07, C11, C12, C15, C20; 0/6 for C18, C19. The other 26 were silent or answered only with *no verdict*. Each miss was turned into a rule that states a necessary condition of the property in terms of the code (C01.split-worklist, C02.force-coverage / angle-range, C05.region-test, C08 coupling rules, C11.worklist-fresh, C12 'every face slot' / flip decision / unfiltered extremum, C13.normals-after-orientation / call-once-cache / ball-scale, C14.difference-form, C16.record-per-line / every cell compacted, C18.type-binding / weakened validation / loop bound, C19.rows-reach-file, C20.closed-box / query-fresh, ...), after which all 54 are reported. In round 4 two of twelve were missed at first (C09-8, C19-6). Round 6 confirmed this: 36 more seeds (three for each of C01, C02, C05, C08, C11, C12, C13, C14, C16, C18, C19, C20), of which 18 were reported before any change (8/18 in the first half, 10/18 in the second). The 18 misses again became rules: C01.rebase 'the renumbering runs on every compaction' (a skip guard is decided by linear integer arithmetic on the sizes), C02 range guards of the bending force, C05.distance-form, C08 id kinds of the pairs stored in coupling records / fresh-id counter not a copy / tail truncation, C11 flag-correlated counting, C12.area-sum over the whole list / C12.flood-fill-complete / C12.eigen-similarity (the Givens steps preserve the characteristic polynomial, a polynomial identity), C13.retry-catches / the Poisson distance test has no exemption, C14.mean-position, C16.local-ids-by-lookup / path-as-given-first, C18.wiring-order / dead sign checks / INF-as-branch, C19.writer-reentrant / header-row on emission traces, C20 const queries and the synthetic unit that instantiates every grid member; after them all 36 are reported. Round 7 (session 5; three seeds for each of C03, C04, C06, C07, C09, C10, C15, C17, the properties round 6 had left out): 15 of 24 reported before any change (9 by the property they were written against, 6 only by another property's check), one answered *no verdict* (C04-10), 8 silent. Seven of the 8 became rules - C03.group-owner, C06 'no break / return leaves the loops around the narrow phase', C20 'the voxel count is the ceiling itself' (reports C06-11), C15.work-shared (reports C06-12), exception matching through public bases only (C09-10), C09 'the mother is recorded for removal under the same facts as the daughters are appended', C10.index-validation, C17.what-message - and C04.removal now decides the erase-while-advancing loop of C04-10. C07-11 stays undetected: it replaces `std::cos(90*M_PI/180.0)` (6.1e-17) by the literal 0.0, which changes the outcome of `dot < threshold` only for a null normal - a value-level difference that no structural rule here states, and a rule that pinned the spelling of the constant would be a frozen-text check. The rules decide enumerated structural clauses, not the behaviour (10.4 *Not decided*), so a further round would again find gaps - at a rate of roughly one seed in two.\n")
 txt.append("Seeds that remain undetected (if any are listed above) are outside what these rules decide; see the *Not decided* notes of 10.4.\n")
 txt.append(table)
 txt.append("\n**Behaviour-preserving refactorings: %d.** All checks silent (exit 0 for all twenty): %d. A false alarm (exit 1): %d%s. No verdict (exit 2, *analysis broken*) from at least one check and no alarm: %d:\n" % (
